@@ -3,12 +3,14 @@
 -/
 import Oracle.Avc
 import Oracle.Rtmp
+import Oracle.Flv
 
 namespace Oracle
 
 def handlers : List (String × (String → List String → Option String)) := [
   ("avc.", Oracle.Avc.handle),
-  ("rtmp.", Oracle.Rtmp.handle)
+  ("rtmp.", Oracle.Rtmp.handle),
+  ("flv.", Oracle.Flv.handle)
 ]
 
 def dispatch (op : String) (args : List String) : Option String :=
